@@ -23,14 +23,20 @@ Definition batch := list reasm.
                       = false: stripEmpty as it was (reader.go:154-159 before the fix)
      loss_errors      : ReaderStreamOptions.LossErrors (reader.go:119-124)
      initiated        : made by NewReaderStream (reader.go:127-135); false = the zero value,
-                        whose channels are nil *)
+                        whose channels are nil
+     ack_nb           = false: the acknowledgement in Close is the blocking send [r.done <- true]
+                               of the code
+                      = true : a hypothetical non-blocking one, [select { case r.done <- true: default: }]
+                               ("Close must never block"); it succeeds only if the assembler is
+                               already parked in [<-r.done]  [refuted: C20_nonblocking_ack_refuted] *)
 Record config := mkCfg {
-  close_acks : bool; strip_keeps_loss : bool; loss_errors : bool; initiated : bool }.
+  close_acks : bool; strip_keeps_loss : bool; loss_errors : bool; initiated : bool; ack_nb : bool }.
 
-Definition fixed (le : bool) : config := mkCfg true true le true.
-Definition orig (le : bool) : config := mkCfg false false le true.
-Definition close_orig (le : bool) : config := mkCfg false true le true.
-Definition strip_orig (le : bool) : config := mkCfg true false le true.
+Definition fixed (le : bool) : config := mkCfg true true le true false.
+Definition orig (le : bool) : config := mkCfg false false le true false.
+Definition close_orig (le : bool) : config := mkCfg false true le true false.
+Definition strip_orig (le : bool) : config := mkCfg true false le true false.
+Definition nonblocking_ack (le : bool) : config := mkCfg true true le true true.
 
 (* consumer programs *)
 Inductive cop :=
@@ -60,7 +66,9 @@ Inductive cpc :=
 (* assembler program counter *)
 Inductive apc :=
 | ASend (b : batch) (rest : list batch)      (* Reassembled, at r.reassembled <- b  (reader.go:142) *)
-| AWait (rest : list batch)                  (* Reassembled, at <-r.done            (reader.go:143) *)
+| ASent (rest : list batch)                  (* Reassembled, the send has completed; about to execute
+                                                <-r.done but not yet parked in it *)
+| AWait (rest : list batch)                  (* Reassembled, parked in <-r.done      (reader.go:143) *)
 | AClose1                                    (* ReassemblyComplete, at close(r.reassembled) (148) *)
 | AClose2                                    (*                     at close(r.done)        (149) *)
 | ADone
@@ -184,9 +192,12 @@ Definition a_next (g : config) (rest : list batch) : apc :=
   | b :: r => if initiated g then ASend b r else APanic
   end.
 
+Definition is_parked (a : apc) : bool := match a with AWait _ => true | _ => false end.
+
 (* steps of the consumer alone: the start of a call, a receive from a closed channel
-   (returns at once), a send on a closed channel (panics) *)
-Definition tau_c (g : config) (rcl dcl : bool) (c : cstate) : option cstate :=
+   (returns at once), a send on a closed channel (panics); [parked]: the assembler is parked in
+   <-r.done (only a non-blocking send looks at that) *)
+Definition tau_c (g : config) (rcl dcl parked : bool) (c : cstate) : option cstate :=
   match pc c with
   | CIdle =>
     match ops c with
@@ -197,7 +208,11 @@ Definition tau_c (g : config) (rcl dcl : bool) (c : cstate) : option cstate :=
     end
   | CReadRecv n d => if rcl then Some (read_recv_closed g c n d) else None
   | CCloseRecv => if rcl then Some (close_return c) else None
-  | CReadSend _ _ | CCloseAck | CCloseSend => if dcl then Some (set_pc c CPanic) else None
+  | CReadSend _ _ | CCloseSend => if dcl then Some (set_pc c CPanic) else None
+  | CCloseAck =>
+    if dcl then Some (set_pc c CPanic)
+    else if ack_nb g && negb parked then Some (close_acked c)   (* select ... default: nobody is receiving *)
+    else None
   | CPanic => None
   end.
 
@@ -207,15 +222,16 @@ Definition sync (g : config) (rcl dcl : bool) (c : cstate) (a : apc) : option (c
   | CReadSend n d, AWait rest => if dcl then None else Some (set_pc c (CReadRecv n d), a_next g rest)
   | CCloseAck, AWait rest => if dcl then None else Some (close_acked c, a_next g rest)
   | CCloseSend, AWait rest => if dcl then None else Some (set_pc c CCloseRecv, a_next g rest)
-  | CReadRecv n d, ASend b rest => if rcl then None else Some (read_recv_ok g c b n d, AWait rest)
-  | CCloseRecv, ASend b rest => if rcl then None else Some (close_recv_ok c b, AWait rest)
+  | CReadRecv n d, ASend b rest => if rcl then None else Some (read_recv_ok g c b n d, ASent rest)
+  | CCloseRecv, ASend b rest => if rcl then None else Some (close_recv_ok c b, ASent rest)
   | _, _ => None
   end.
 
-(* steps of the assembler alone: the two close() of ReassemblyComplete; close of a nil or
-   closed channel panics *)
+(* steps of the assembler alone: parking in <-r.done after its send has completed; the two
+   close() of ReassemblyComplete (close of a nil or closed channel panics) *)
 Definition tau_a (g : config) (a : apc) (rcl dcl : bool) : option (apc * bool * bool) :=
   match a with
+  | ASent rest => Some (AWait rest, rcl, dcl)
   | AClose1 => if negb (initiated g) || rcl then Some (APanic, rcl, dcl) else Some (AClose2, true, dcl)
   | AClose2 => if negb (initiated g) || dcl then Some (APanic, rcl, dcl) else Some (ADone, rcl, true)
   | _ => None
@@ -227,7 +243,7 @@ Definition do_sync (g : config) (s : st) : option st :=
   | None => None
   end.
 Definition do_tau_c (g : config) (s : st) : option st :=
-  match tau_c g (rc s) (dc s) (cs s) with
+  match tau_c g (rc s) (dc s) (is_parked (ap s)) (cs s) with
   | Some c' => Some (mkS c' (ap s) (rc s) (dc s))
   | None => None
   end.
@@ -259,8 +275,9 @@ Definition bs_w (l : list batch) : nat := fold_right (fun b acc => b_w b + acc) 
 
 Definition a_w (a : apc) : nat :=
   match a with
-  | ASend b rest => 4 * length rest + 6 + b_w b + bs_w rest
-  | AWait rest => 4 * length rest + 3 + bs_w rest
+  | ASend b rest => 5 * length rest + 7 + b_w b + bs_w rest
+  | ASent rest => 5 * length rest + 4 + bs_w rest
+  | AWait rest => 5 * length rest + 3 + bs_w rest
   | AClose1 => 2 | AClose2 => 1 | ADone => 0 | APanic => 0
   end.
 Definition pc_w (p : cpc) : nat :=
@@ -302,7 +319,7 @@ Definition c_status (c : cstate) : status :=
 (* number of Reassembled calls that have returned *)
 Definition a_returned (g : config) (total : nat) (a : apc) : nat :=
   match a with
-  | ASend _ rest | AWait rest => total - S (length rest)
+  | ASend _ rest | ASent rest | AWait rest => total - S (length rest)
   | APanic => if initiated g then total else 0
   | _ => total
   end.
